@@ -225,11 +225,24 @@ pub struct AffixCase {
     pub strings: DecoStrings,
 }
 
-fn expected_stream(v: &[Inline], ds: &DecoStrings, label: &mut usize, out: &mut String) {
+/// Append `s` as it appears inside `depth` nested strikeout elements: every non-whitespace
+/// character with width gets one U+0336 per enclosing <s>/<del> (Unicode strikeout is on by default).
+fn emit(s: &str, depth: usize, out: &mut String) {
+    for c in s.chars() {
+        out.push(c);
+        if !c.is_whitespace() && crate::util::cw(c) > 0 {
+            for _ in 0..depth {
+                out.push('\u{336}');
+            }
+        }
+    }
+}
+
+fn expected_stream(v: &[Inline], ds: &DecoStrings, label: &mut usize, depth: usize, out: &mut String) {
     for i in v {
         match i {
             Inline::Text(t) => {
-                out.push_str(&t.render(*label));
+                emit(&t.render(*label), depth, out);
                 *label += 1;
             }
             Inline::El(tag, _, kids) => {
@@ -241,26 +254,28 @@ fn expected_stream(v: &[Inline], ds: &DecoStrings, label: &mut usize, out: &mut 
                     ITag::Sup => (&ds.sup.0, &ds.sup.1),
                     _ => ("", ""),
                 };
-                out.push_str(a);
-                expected_stream(kids, ds, label, out);
-                out.push_str(b);
+                // an element's own affixes are outside its own strikeout
+                emit(a, depth, out);
+                let inner = if matches!(tag, ITag::S | ITag::Del) { depth + 1 } else { depth };
+                expected_stream(kids, ds, label, inner, out);
+                emit(b, depth, out);
             }
             Inline::A { href, kids, .. } => {
                 let linked = href.is_some();
                 if linked {
-                    out.push_str(&ds.link.0);
+                    emit(&ds.link.0, depth, out);
                 }
-                expected_stream(kids, ds, label, out);
+                expected_stream(kids, ds, label, depth, out);
                 if linked {
-                    out.push_str(&ds.link.1);
+                    emit(&ds.link.1, depth, out);
                 }
             }
             Inline::Img { alt, .. } => {
                 if let Some(t) = alt {
-                    out.push_str(&ds.img.0);
-                    out.push_str(&t.render(*label));
+                    emit(&ds.img.0, depth, out);
+                    emit(&t.render(*label), depth, out);
                     *label += 1;
-                    out.push_str(&ds.img.1);
+                    emit(&ds.img.1, depth, out);
                 }
             }
             Inline::Br | Inline::Raw(_) => {}
@@ -274,11 +289,10 @@ pub fn check_affix(case: &AffixCase, st: &mut Stats) -> Result<(), String> {
     ser.inlines(&case.inlines);
     ser.out.push_str("</p>");
     let html = ser.out;
-    let mut cfg = CfgSpec::of(Deco::Custom(case.strings.clone()));
-    cfg.strikeout = Some(false);
+    let cfg = CfgSpec::of(Deco::Custom(case.strings.clone()));
     let mut exp = String::new();
     let mut label = 0;
-    expected_stream(&case.inlines, &case.strings, &mut label, &mut exp);
+    expected_stream(&case.inlines, &case.strings, &mut label, 0, &mut exp);
     st.sample(|| json!({"html": short(&html, 300), "width": case.width, "strings": case.strings}));
     let r = render(&cfg, html.as_bytes(), case.width);
     if let Some(b) = r.bad() {
